@@ -121,11 +121,18 @@ func RunNtlm(s *NtScript, tw *TraceWriter, rng *rand.Rand, conn *grpc.ClientConn
 				continue // the model only answers challenges that were received
 			}
 			pass := NtUsers()[u]
+			name := u
+			switch u {
+			case "ALICE": // alice's name in another letter case, proven with alice's password
+				pass = NtAlicePw
+			case "alice_": // alice's name with a blank appended
+				name, pass = "alice ", NtAlicePw
+			}
 			if pw != "right" {
 				pass = pass + "-wrong"
 			}
 			cl := &ntlm.V2ClientSession{}
-			cl.SetUserInfo(u, pass, "")
+			cl.SetUserInfo(name, pass, "")
 			if err := cl.ProcessChallengeMessage(c.msg); err != nil {
 				return fmt.Errorf("client: %w", err)
 			}
